@@ -250,6 +250,15 @@ for tname, tsch, d0, d1 in [('bool', {'type': 'boolean'}, False, True), ('int', 
         case(gname, {'G': g}, 'G', 'struct')
         case(gname + '_b', {'G': g}, 'G', 'struct', settings={'builder': True})
 
+WIDGET = {'title': 'Widget', 'type': 'object', 'required': ['id', 'display-name', 'type'],
+          'properties': {'id': {'type': 'integer', 'format': 'uint32'}, 'display-name': {'type': 'string'},
+                         'type': {'type': ['string', 'null']}, 'enabled': {'type': 'boolean', 'default': True},
+                         'retryCount': {'type': 'integer', 'format': 'uint8', 'default': 3}},
+          'default': {'id': 7, 'display-name': 'anon', 'type': 'gadget'}}
+# ingested directly with add_type (a definitions entry would lose its object-level default)
+case('objdefault', {'Widget': WIDGET}, 'Widget', 'struct', ingest='add_type')
+case('objdefault_b', {'Widget': WIDGET}, 'Widget', 'struct', settings={'builder': True}, ingest='add_type')
+
 # C14: the same schema under other settings must behave the same on the wire
 C14_VARIANTS = {
     'builder': {'builder': True},
@@ -263,8 +272,8 @@ def main(tier='quick'):
     os.makedirs(CACHE, exist_ok=True)
     gin = []
     for c in CASES:
-        gin.append({'id': c['id'], 'definitions': c['definitions'], 'root': c['root'], 'settings': c['settings']})
-        if c['kind'] in ('struct', 'tuple') and not c['settings']:
+        gin.append({'id': c['id'], 'definitions': c['definitions'], 'root': c['root'], 'settings': c['settings'], 'ingest': c.get('ingest', 'ref')})
+        if c['kind'] in ('struct', 'tuple') and not c['settings'] and not c.get('ingest'):
             for vn, vs in C14_VARIANTS.items():
                 gin.append({'id': f"{c['id']}__{vn}", 'definitions': c['definitions'], 'root': c['root'], 'settings': vs})
             # a patch that renames and a replacement that removes *another* definition
@@ -414,7 +423,7 @@ def emit(index):
                 fn, em = e2gen.fn_instance(f'inst_{cid}_{mn}', T, root, pl)
                 gen_fns.append(fn)
                 h(f'e2_inst_{cid}_{mn}', f'|s| gen::inst_{cid}_{mn}(s)', ['C05', 'C02'], f'{cid}: {md}', tier)
-            if not c['settings']:
+            if not c['settings'] and not c.get('ingest'):
                 for vn in list(C14_VARIANTS) + ['patch']:
                     vid = f'{cid}__{vn}'
                     vm = index.get(vid, {})
